@@ -90,6 +90,9 @@ def strain_field(kind, v):
     elif kind == "ones":           # un-normalised: what the package uses when no lattice block is given
         e = numpy.ones((n, 3))
         return e
+    elif kind == "int":            # integer dtype
+        e = numpy.array([[1, 1, 2], [2, 3, 4], [5, 3, 1], [1, 2, 2]][:n] if n <= 4 else [[1, 1, 2]] * n, dtype=int)
+        return e
     elif kind == "raw":            # positive axial strains that do not sum to 1
         e = numpy.tile([0.9, 1.0, 1.2], (n, 1))
         e[-1] = [2.0, 3.0, 7.0]
